@@ -7,6 +7,7 @@ has, and never reaches a division with a zero divisor.
 -/
 import Qsx.Proofs.NumScan
 import Qsx.Proofs.LpLexSafe
+import Qsx.Proofs.MpsLexSafe
 
 namespace Qsx.Props.C11
 open Qsx.Num
@@ -83,5 +84,43 @@ def lplexDemo : Option (List Char × Int × Int × Int × Int × Int × Bool × 
 
 /-- the hypotheses are satisfiable and the functions do something -/
 example : (lplexDemo == some (['c', '1'], 0, 0, 0, -1, 0, true, 9)) = true := by decide +kernel
+
+
+/-! ### the lexical layer of the MPS reader (read_mps.c), model `Qsx.MpsLex` -/
+
+/-- `next_line` always answers, and whenever it reports a line the cursor points into that line's terminated string -/
+theorem mpslex_next_line (s : MpsLex.St) : ∃ s' r, MpsLex.nextLine s = some (s', r) ∧ (r = 0 → MpsLex.Inv s') :=
+  MpsLex.nextLine_safe s
+
+open Qsx.MpsLex in
+/-- every other lexer function, from every state whose cursor points into a terminated string: no null dereference, no read
+behind the terminator, and the cursor stays inside the string -/
+theorem mpslex_safe (s : MpsLex.St) (h : Inv s) :
+    Safe (skipComment s) ∧ Safe (nextField s) ∧ (∀ pk, Safe (getDouble s pk)) ∧ Safe (nextCoef s) ∧ Safe (nextBound s) ∧
+    Safe (nextFieldIsNumber s) ∧ Safe (checkEndOfLine s) :=
+  ⟨skipComment_safe s h, nextField_safe s h, fun pk => getDouble_safe s pk h, nextCoef_safe s h, nextBound_safe s h,
+   nextFieldIsNumber_safe s h, checkEndOfLine_safe s h⟩
+
+open Qsx.MpsLex in
+/-- `set_end_of_line` (`*p = '\n'`): strictly inside the string it keeps a terminated string; on the terminator itself it
+leaves an unterminated one, and the only call mps.c makes afterwards (check_end_of_line) looks at the written character only -/
+theorem mpslex_set_end_of_line (s : MpsLex.St) (h : Inv s) :
+    (s.p < s.line.length → ∃ s', setEndOfLine s = some s' ∧ Inv s') ∧
+    (s.p = s.line.length → ∃ s1, setEndOfLine s = some s1 ∧ s1.unterm = true ∧ ∃ s2, checkEndOfLine s1 = some (s2, false)) :=
+  ⟨setEndOfLine_inside s h, setEndOfLine_at_terminator s h⟩
+
+/-- key, first field, a coefficient and a bound read from two MPS lines -/
+def mpslexDemo : Option (List Char × List Char × Int × Bool × Int × Bool × Nat) := do
+  let (s, _) ← MpsLex.nextLine { file := [" x  r1  -3/4\n".toList, " UP bnd y -inf".toList] }
+  let (s, _) ← MpsLex.nextField s
+  let f1 := s.field
+  let (s, r1, v) ← MpsLex.nextCoef s
+  let (s, _) ← MpsLex.nextLine s
+  let (s, _) ← MpsLex.nextField s
+  let (s, _) ← MpsLex.nextField s
+  let (s, r2, b) ← MpsLex.nextBound s
+  pure (f1, s.field, r1, v == some (-3/4 : Rat), r2, b == some LpLex.Bnd.ninf, s.fieldNum)
+
+example : (mpslexDemo == some (['r', '1'], ['y'], 0, true, 0, true, 4)) = true := by decide +kernel
 
 end Qsx.Props.C11
